@@ -45,6 +45,9 @@ type Task struct {
 	OpKind  string
 
 	spinStreak int // consecutive waits without a single ordinary statement
+	lockCount  uint64
+	preLock    []Preempt
+	parked     bool // suspended right after acquiring a lock; resumed only when somebody waits or nobody else can run
 }
 
 // Event is one entry of the (optional) readable schedule trace.
@@ -73,14 +76,16 @@ type Sim struct {
 	ctl   *Task // pseudo task for code run by the controller itself
 	cb    baton
 
-	Steps    uint64
-	Switches uint64
-	Preempts uint64
-	Spins    uint64
-	Budget   uint64
-	noYield  int
-	Deadlock bool
-	aborted  bool
+	Steps        uint64
+	Switches     uint64
+	Preempts     uint64
+	Spins        uint64
+	stuck        int
+	LockPreempts uint64
+	Budget       uint64
+	noYield      int
+	Deadlock     bool
+	aborted      bool
 
 	EvHash   uint64
 	TraceOn  bool
@@ -93,6 +98,8 @@ type Sim struct {
 	// at every context switch; it evaluates run-time invariants.
 	OnSwitch func(from *Task)
 }
+
+var debugSched = false
 
 const fnvOff = 14695981039346656037
 const fnvPrime = 1099511628211
@@ -142,8 +149,16 @@ func (s *Sim) BeginOp(idx int, kind string, pre []Preempt) {
 	t.OpIndex = idx
 	t.OpKind = kind
 	t.pre = pre
+	t.preLock = nil
+	t.lockCount = 0
 	s.armTask(t)
 }
+
+// SetLockPlan installs the "pre-empt after the k-th lock acquisition" plan of
+// the operation the running task is about to execute.
+//
+//go:norace
+func (s *Sim) SetLockPlan(pl []Preempt) { s.cur.preLock = pl }
 
 // EndOp returns the number of statements the operation executed.
 //
@@ -175,7 +190,8 @@ func (s *Sim) Hook(site uint32) {
 		return
 	}
 	spin := site&0x80000000 != 0
-	site &^= 0x80000000
+	locked := site&0x40000000 != 0
+	site &^= 0xC0000000
 	s.Steps++
 	if int(site) < len(s.SiteHits) {
 		s.SiteHits[site]++
@@ -187,39 +203,60 @@ func (s *Sim) Hook(site uint32) {
 	}
 	if !spin {
 		t.spinStreak = 0
+		s.stuck = 0 // somebody executed an ordinary statement: progress
+		if locked && t != s.ctl && s.noYield == 0 {
+			// the task has just acquired a lock: planned pre-emptions of the
+			// form "after the k-th lock acquisition of this operation"
+			t.lockCount++
+			for _, lp := range t.preLock {
+				if lp.Step == t.lockCount {
+					if next := s.nthOther(t, lp.To); next != nil {
+						s.Preempts++
+						s.LockPreempts++
+						s.Overlaps = append(s.Overlaps, Overlap{A: t.OpKind, B: next.OpKind, Site: site})
+						// keep the lock holder off the processor for as long as
+						// the others can run without it
+						t.parked = true
+						s.switchTo(next, 'k', site)
+						t.parked = false
+					}
+					break
+				}
+			}
+		}
 		return
 	}
-	// The task waits for another one (rewritten Lock, empty loop body): let
-	// the others run, round-robin. If nobody else is alive, or every live
-	// task has been doing nothing but waiting, no one can ever end the wait.
+	// The task has just failed to take a lock (rewritten Lock) or goes round
+	// an empty loop: it waits for another caller. Let the others run,
+	// round-robin. s.stuck counts consecutive failed attempts of anybody with
+	// no ordinary statement executed by anybody in between; when every live
+	// task has had several turns like that, nobody can ever end the wait.
 	t.spinStreak++
-	if s.noYield > 0 {
-		if t.spinStreak > 1000 {
-			panic(Deadlocked{"waiting for a lock inside a section that must not be left (sync.Once)"})
+	s.stuck++
+	live := 0
+	for _, o := range s.tasks {
+		if o.state != stDone {
+			live++
 		}
+	}
+	if t == s.ctl || live == 0 {
+		live = 1
+	}
+	if s.stuck > 4*live+4 && (t == s.ctl || s.noYield > 0 || s.allSpinning()) {
+		s.stuck = 0
+		why := "every simulated caller waits for a lock another one holds (lock cycle)"
+		if t == s.ctl || live == 1 {
+			why = "a caller waits for a lock that nobody will release (taken twice, or never released by an earlier call)"
+		}
+		panic(Deadlocked{why})
+	}
+	if t == s.ctl || s.noYield > 0 {
 		return
 	}
-	if t == s.ctl {
-		if t.spinStreak > 3 {
-			panic(Deadlocked{"a single caller waits for a lock that nobody holds any more (taken twice, or never released by an earlier call)"})
-		}
-		return
+	if next := s.nthOther(t, 0); next != nil {
+		s.Spins++
+		s.switchTo(next, 'l', site)
 	}
-	next := s.nthOther(t, 0)
-	if next == nil {
-		if t.spinStreak > 3 {
-			panic(Deadlocked{"the last running caller waits for a lock that was never released"})
-		}
-		return
-	}
-	if t.spinStreak > 3 && s.allSpinning() {
-		for _, o := range s.tasks {
-			o.spinStreak = 0
-		}
-		panic(Deadlocked{"every simulated caller waits for a lock another one holds (lock cycle)"})
-	}
-	s.Spins++
-	s.switchTo(next, 'l', site)
 }
 
 // allSpinning reports whether every live task has only been waiting lately.
@@ -230,7 +267,7 @@ func (s *Sim) allSpinning() bool {
 		if o.state == stDone {
 			continue
 		}
-		if o.state == stBlocked || o.spinStreak < 3 {
+		if o.state == stBlocked || o.spinStreak < 1 {
 			return false
 		}
 	}
@@ -271,14 +308,23 @@ func (s *Sim) slow(t *Task, site uint32) {
 //
 //go:norace
 func (s *Sim) nthOther(t *Task, k int) *Task {
-	n := 0
+	n, np := 0, 0
 	for _, o := range s.tasks {
 		if o != t && o.state != stDone {
 			n++
+			if o.parked {
+				np++
+			}
 		}
 	}
 	if n == 0 {
 		return nil
+	}
+	// parked lock holders are passed over while somebody else can run, except
+	// by a task that is itself waiting (it may be waiting for that very lock)
+	skipParked := np < n && t.spinStreak == 0
+	if skipParked {
+		n -= np
 	}
 	if k < 0 {
 		k = -k
@@ -286,7 +332,7 @@ func (s *Sim) nthOther(t *Task, k int) *Task {
 	k %= n
 	for i := 1; i <= len(s.tasks); i++ {
 		o := s.tasks[(t.ID+i)%len(s.tasks)]
-		if o != t && o.state != stDone {
+		if o != t && o.state != stDone && !(skipParked && o.parked) {
 			if k == 0 {
 				return o
 			}
@@ -301,9 +347,19 @@ func (s *Sim) nthOther(t *Task, k int) *Task {
 //
 //go:norace
 func (s *Sim) nextReady(t *Task) *Task {
+	for pass := 0; pass < 2; pass++ {
+		if r := s.nextReadyPass(t, pass == 0); r != nil {
+			return r
+		}
+	}
+	return nil
+}
+
+//go:norace
+func (s *Sim) nextReadyPass(t *Task, skipParked bool) *Task {
 	for i := 1; i <= len(s.tasks); i++ {
 		o := s.tasks[(t.ID+i)%len(s.tasks)]
-		if o == t {
+		if o == t || (skipParked && o.parked) {
 			continue
 		}
 		switch o.state {
